@@ -35,6 +35,7 @@ Step(e) ==
                 IN /\ (want = "unjudged") => Note("configuration inside the wide band around a boundary between kinds: kind not judged")
                    /\ (~KindOK(e.kind, want)) => Mismatch(l, e, [exact_kind |-> want])
                    /\ (~ptsok) => Mismatch(l, e, "a reported point does not lie on both circles within 1e-7")
+                   /\ ("pts_iter" \in DOMAIN e /\ e.pts_iter # e.pts) => Mismatch(l, e, "into_iter() does not yield exactly the variant's points")
            [] e.ev = "cl" ->
                 LET c == P(e.c, e.s) r == Up(e.r, e.s) a == P(e.a, e.s) b == P(e.b, e.s)
                     want == CLKind(c, r, a, b)
@@ -42,6 +43,7 @@ Step(e) ==
                 IN /\ (want = "unjudged") => Note("configuration inside the wide band around a boundary between kinds: kind not judged")
                    /\ (~KindOK(e.kind, want)) => Mismatch(l, e, [exact_kind |-> want])
                    /\ (~ptsok) => Mismatch(l, e, "a reported point does not lie on the circle and on the line within 1e-7")
+                   /\ ("pts_iter" \in DOMAIN e /\ e.pts_iter # e.pts) => Mismatch(l, e, "into_iter() does not yield exactly the variant's points")
            [] e.ev = "ll" ->
                 LET a == P(e.a, e.s) b == P(e.b, e.s) c == P(e.c, e.s) d == P(e.d, e.s)
                     want == LLKind(a, b, c, d)
